@@ -235,6 +235,7 @@ func cmdCheck(args []string) (code int) {
 		st = runMutants(vdir, *repo, *prop)
 		if st != nil {
 			st["seeded"] = runSeeds(vdir, *repo, *prop)
+			st["refactorings"] = runRefactors(vdir, *repo, *prop)
 		}
 	}
 	return r.Finalize(finalizeOpts{
